@@ -319,5 +319,25 @@ def check(run, prog):
              "(files[-1], files[0]): an empty selection must reach the formatter and the exit", floor=1)
     subs = [n for n in walk_fn(main.node) if isinstance(n, ast.Subscript) and isinstance(n.value, ast.Name)
             and n.value.id == files_name and not isinstance(n.slice, ast.Slice)]
+
+    def guarded_nonempty(n) -> bool:
+        """under `if files ...:` / `if len(files) ...` (true branch) or an earlier `files and` operand"""
+        from ..facts import conjuncts
+        cur = n
+        for a in ancestors(n):
+            if isinstance(a, ast.BoolOp) and isinstance(a.op, ast.And):
+                idx = next((i for i, v in enumerate(a.values) if any(x is cur for x in ast.walk(v))), None)
+                if idx is not None and any(text(v) in (files_name, f"len({files_name})", f"len({files_name}) > 0") for v in a.values[:idx]):
+                    return True
+            if isinstance(a, ast.If) and any(any(x is n for x in ast.walk(s_)) for s_ in a.body):
+                if any(text(c) in (files_name, f"len({files_name})", f"len({files_name}) > 0", f"{files_name} != []")
+                       for c in conjuncts(a.test)):
+                    return True
+            if isinstance(a, ast.For) and text(a.iter) == files_name:
+                return True
+            cur = a
+        return False
+
+    subs = [n for n in subs if not guarded_nonempty(n)]
     run.ob("R-4.5", f"{main.key}::no-positional-files", not subs,
            f"{files_name}[...] is addressed by position: crashes on an empty selection", subs[0] if subs else main.node)
